@@ -115,6 +115,7 @@ type Exec struct {
 	nameCount     map[string]int
 	allocCtr      int
 	decrEntry     *Term
+	lastAlloc      map[string]*Term
 	inlineNames    map[string]bool
 	harnessUnroll  int
 	unrollOverride int
@@ -670,10 +671,14 @@ func (x *Exec) mergeStates(ins []*edgeState) (*State, error) {
 		return ins[0].st, nil
 	}
 	tb := x.tb
+	// Merge conditions are the path conditions of the incoming edges with their common
+	// conjuncts removed: what distinguishes the edges locally (the branch conditions), not
+	// the whole history - keeps merged values syntactically small and comparable.
+	local := localConds(tb, ins)
 	res := ins[len(ins)-1].st.clone()
 	for i := len(ins) - 2; i >= 0; i-- {
 		s := ins[i].st
-		c := s.pc
+		c := local[i]
 		// env
 		for k, v := range s.env {
 			if o, ok := res.env[k]; ok {
@@ -714,9 +719,36 @@ func (x *Exec) mergeStates(ins []*edgeState) (*State, error) {
 		}
 		res.havocs = unionHavocs(res.havocs, s.havocs)
 		res.top = tb.Ite(c, s.top, res.top)
-		res.pc = tb.Or(c, res.pc)
+		res.pc = tb.Or(s.pc, res.pc)
 	}
 	return res, nil
+}
+
+// localConds strips the conjuncts shared by every incoming path condition.
+func localConds(tb *TB, ins []*edgeState) []*Term {
+	count := map[int]int{}
+	sets := make([][]*Term, len(ins))
+	for i, in := range ins {
+		sets[i] = conjuncts(in.st.pc, nil)
+		seen := map[int]bool{}
+		for _, c := range sets[i] {
+			if !seen[c.id] {
+				seen[c.id] = true
+				count[c.id]++
+			}
+		}
+	}
+	out := make([]*Term, len(ins))
+	for i := range ins {
+		var rest []*Term
+		for _, c := range sets[i] {
+			if count[c.id] < len(ins) {
+				rest = append(rest, c)
+			}
+		}
+		out[i] = tb.And(rest...)
+	}
+	return out
 }
 
 func unionHavocs(a, b []*havocRec) []*havocRec {
@@ -833,10 +865,11 @@ func (x *Exec) runFunc(fn *ssa.Function, args []*Val, st *State, con *Contract, 
 	}
 	nres := len(fr.rets[0].vals)
 	vals := make([]*Val, nres)
+	retLocal := localConds(x.tb, ins)
 	for j := 0; j < nres; j++ {
 		v := fr.rets[len(fr.rets)-1].vals[j]
 		for i := len(fr.rets) - 2; i >= 0; i-- {
-			m, err := x.mergeVal(fr.rets[i].st.pc, fr.rets[i].vals[j], v)
+			m, err := x.mergeVal(retLocal[i], fr.rets[i].vals[j], v)
 			if err != nil {
 				return nil, nil, fmt.Errorf("merging results of %s: %w", fn.Name(), err)
 			}
@@ -1075,6 +1108,7 @@ func (x *Exec) runNode(fr *frameRun, n *xnode) error {
 // phiMerge computes phi values at a join from the incoming edge states.
 func (x *Exec) phiMerge(n *xnode, phis []*ssa.Phi) ([]*Val, error) {
 	out := make([]*Val, len(phis))
+	local := localConds(x.tb, n.in)
 	for pi, phi := range phis {
 		var v *Val
 		for i := len(n.in) - 1; i >= 0; i-- {
@@ -1090,7 +1124,7 @@ func (x *Exec) phiMerge(n *xnode, phis []*ssa.Phi) ([]*Val, error) {
 				v = ov
 				continue
 			}
-			m, err := x.mergeVal(in.st.pc, ov, v)
+			m, err := x.mergeVal(local[i], ov, v)
 			if err != nil {
 				return nil, fmt.Errorf("phi %s: %w", phi.Name(), err)
 			}
